@@ -35,10 +35,11 @@ theorem operands_sub_static (sp : Spec) (i j : Nat) (h : j ∈ operands sp i) :
 structure StaticRanked (sp : Spec) (rank : Nat → Nat) : Prop where
   bound : ∀ i, i < sp.defs.size → rank i ≤ sp.defs.size
   dec : ∀ i, i < sp.defs.size → ∀ j, j ∈ staticOperands sp i → j < sp.defs.size ∧ rank j < rank i
+  vdec : ∀ i, i < sp.defs.size → ∀ j, j ∈ valDeps sp i → j < sp.defs.size ∧ rank j < rank i
 
 theorem StaticRanked.wellRanked {sp : Spec} {rank : Nat → Nat} (h : StaticRanked sp rank) :
     WellRanked sp rank :=
-  ⟨h.bound, fun i hi j hj => h.dec i hi j (operands_sub_static sp i j hj)⟩
+  ⟨h.bound, fun i hi j hj => h.dec i hi j (operands_sub_static sp i j hj), h.vdec⟩
 
 /-- two states with the same definitions and loops -/
 def SameProg (sp sp' : Spec) : Prop := sp'.defs = sp.defs ∧ sp'.loopTo = sp.loopTo
@@ -57,6 +58,11 @@ theorem staticOperands_same {sp sp' : Spec} (h : SameProg sp sp') (i : Nat) :
   rw [h.getDef, h.2]
   cases hd : sp.getDef i <;> simp
 
+theorem valDeps_same {sp sp' : Spec} (h : SameProg sp sp') (i : Nat) :
+    valDeps sp' i = valDeps sp i := by
+  unfold valDeps
+  rw [h.getDef]
+
 theorem StaticRanked.same {sp sp' : Spec} {rank : Nat → Nat} (h : StaticRanked sp rank)
     (hs : SameProg sp sp') : StaticRanked sp' rank := by
   constructor
@@ -65,6 +71,10 @@ theorem StaticRanked.same {sp sp' : Spec} {rank : Nat → Nat} (h : StaticRanked
     rw [hs.1] at hi ⊢
     rw [staticOperands_same hs] at hj
     exact h.dec i hi j hj
+  · intro i hi j hj
+    rw [hs.1] at hi ⊢
+    rw [valDeps_same hs] at hj
+    exact h.vdec i hi j hj
 
 /-! ### enough fuel -/
 
@@ -82,6 +92,7 @@ theorem cellVal_succ (sp : Spec) (fuel i : Nat) :
       | none =>
         match sp.getDef i with
         | .csink k | .const k | .hold _ k | .accum _ k _ | .collect _ k _ => some k
+        | .holdz _ c => cellVal sp fuel c
         | .mapc c k => (cellVal sp fuel c).map (f1 k)
         | .lift2 a b op => do let x ← cellVal sp fuel a; let y ← cellVal sp fuel b; pure (f2 op x y)
         | .liftn cs => (cs.mapM (cellVal sp fuel)).map fN
@@ -109,11 +120,16 @@ theorem cellVal_fuel {sp : Spec} {rank : Nat → Nat} (wr : WellRanked sp rank) 
         intro j hj
         have := wr.dec i hi j hj
         exact ih f' j (by omega) (by omega) this.1
+      have hvdep : ∀ j, j ∈ valDeps sp i → cellVal sp f j = cellVal sp f' j := by
+        intro j hj
+        have := wr.vdec i hi j hj
+        exact ih f' j (by omega) (by omega) this.1
       rw [cellVal_succ, cellVal_succ]
       cases hs : sp.stored.get i with
       | some v => rfl
       | none =>
         cases hd : sp.getDef i with
+        | holdz s c => simp only []; rw [hvdep c (by simp [valDeps, hd])]
         | mapc c k => simp only []; rw [hdep c (by simp [operands, hd])]
         | lift2 a b op =>
           simp only []
@@ -149,6 +165,7 @@ theorem val_eq {sp : Spec} {rank : Nat → Nat} (wr : WellRanked sp rank) (i : N
       | none =>
         match sp.getDef i with
         | .csink k | .const k | .hold _ k | .accum _ k _ | .collect _ k _ => some k
+        | .holdz _ c => sp.val c
         | .mapc c k => (sp.val c).map (f1 k)
         | .lift2 a b op => do let x ← sp.val a; let y ← sp.val b; pure (f2 op x y)
         | .liftn cs => (cs.mapM fun c => sp.val c).map fN
@@ -165,12 +182,18 @@ theorem val_eq {sp : Spec} {rank : Nat → Nat} (wr : WellRanked sp rank) (i : N
       have h1 := wr.dec i hi j hj
       have h2 := wr.bound i hi
       exact cellVal_fuel wr _ _ j (by omega) (by omega) h1.1
+    have hvdep : ∀ j, j ∈ valDeps sp i → cellVal sp sp.defs.size j = sp.val j := by
+      intro j hj
+      have h1 := wr.vdec i hi j hj
+      have h2 := wr.bound i hi
+      exact cellVal_fuel wr _ _ j (by omega) (by omega) h1.1
     unfold Spec.val
     rw [cellVal_succ]
     cases hs : sp.stored.get i with
     | some v => rfl
     | none =>
       cases hd : sp.getDef i with
+      | holdz s c => simp only []; rw [hvdep c (by simp [valDeps, hd])]; rfl
       | mapc c k => simp only []; rw [hdep c (by simp [operands, hd])]; rfl
       | lift2 a b op =>
         simp only []
@@ -208,9 +231,11 @@ theorem val_eq {sp : Spec} {rank : Nat → Nat} (wr : WellRanked sp rank) (i : N
 
 /-! ### well-typed, closed programs: every cell has a value -/
 
-/-- the cells whose value a derived cell is computed from (for these constructors this is `operands`) -/
+/-- the cells whose value a derived cell is computed from (for `holdz` this is `valDeps`, for the other
+    constructors `operands`) -/
 def cellDeps (sp : Spec) (i : Nat) : List Nat :=
   match sp.getDef i with
+  | .holdz _ c => [c]
   | .mapc c _ => [c]
   | .lift2 a b _ => [a, b]
   | .liftn cs => cs
@@ -218,12 +243,20 @@ def cellDeps (sp : Spec) (i : Nat) : List Nat :=
   | .cloop => (match sp.loopTo.get i with | some t => [t] | none => [])
   | _ => []
 
-theorem cellDeps_sub_operands (sp : Spec) (i j : Nat) (h : j ∈ cellDeps sp i) : j ∈ operands sp i := by
+theorem cellDeps_sub_operands (sp : Spec) (i j : Nat) (h : j ∈ cellDeps sp i) :
+    j ∈ operands sp i ∨ j ∈ valDeps sp i := by
   unfold cellDeps at h
-  unfold operands
+  unfold operands valDeps
   cases hd : sp.getDef i with
   | cloop => cases hl : sp.loopTo.get i <;> simp_all
   | _ => simp_all
+
+/-- a ranking decreases along `cellDeps` -/
+theorem cellDeps_dec {sp : Spec} {rank : Nat → Nat} (wr : WellRanked sp rank) (i : Nat)
+    (hi : i < sp.defs.size) (j : Nat) (h : j ∈ cellDeps sp i) : j < sp.defs.size ∧ rank j < rank i := by
+  rcases cellDeps_sub_operands sp i j h with h | h
+  · exact wr.dec i hi j h
+  · exact wr.vdec i hi j h
 
 /-- the inputs of derived cells are cells -/
 def WellTyped (sp : Spec) : Prop :=
@@ -278,13 +311,16 @@ theorem val_ne_none_aux {sp : Spec} {rank : Nat → Nat} (wr : WellRanked sp ran
     have hi : i < sp.defs.size := getDef_lt sp i (by intro h; rw [h] at hc; cases hc)
     have hdep : ∀ j, j ∈ cellDeps sp i → sp.val j ≠ none := by
       intro j hj
-      have := wr.dec i hi j (cellDeps_sub_operands sp i j hj)
+      have := cellDeps_dec wr i hi j hj
       exact ih j (by omega) (wt i hi j hj)
     rw [val_eq wr i]
     cases hs : sp.stored.get i with
     | some v => simp
     | none =>
       cases hd : sp.getDef i with
+      | holdz s c =>
+        have := hdep c (by simp [cellDeps, hd])
+        simpa using this
       | mapc c k =>
         have := hdep c (by simp [cellDeps, hd])
         simpa using this
@@ -507,9 +543,35 @@ theorem val_stepTxn_cell_aux {sp : Spec} {rank : Nat → Nat} (wf : WellFormed s
     have hi : c < sp.defs.size := getDef_lt sp c (by intro h; rw [h] at hc; cases hc)
     have hdep : ∀ j, j ∈ cellDeps sp c → (stepTxn sp ev).val j = nextVal sp ev j := by
       intro j hj
-      have := wr.dec c hi j (cellDeps_sub_operands sp c j hj)
+      have := cellDeps_dec wr c hi j hj
       exact ih j (by omega) (wf.typed c hi j hj)
-    have hst := stepTxn_stored_cell (ev := ev) hc
+    cases hz : (sp.getDef c).isHoldz with
+    | true =>
+      obtain ⟨s, c2, hd⟩ : ∃ s c2, sp.getDef c = .holdz s c2 := by
+        cases hd : sp.getDef c <;> simp_all [Def.isHoldz]
+      have hst := stepTxn_stored_holdz (ev := ev) hd
+      cases hf : fire (fireTable sp ev) c with
+      | some v =>
+        rw [hf] at hst
+        rw [nextVal_some hf]; exact val_stored hst
+      | none =>
+        rw [hf] at hst
+        simp only [] at hst
+        rw [nextVal_none hf]
+        cases hs : sp.stored.get c with
+        | some w =>
+          rw [hs] at hst
+          rw [val_stored hst, val_stored hs]
+        | none =>
+          have hv := val_ne_none wr wf.typed wf.closed c2 (wf.typed c hi c2 (by simp [cellDeps, hd]))
+          cases hv2 : sp.val c2 with
+          | none => exact absurd hv2 hv
+          | some v =>
+            rw [hs, hv2] at hst
+            rw [val_stored hst, val_eq wr c, hs, hd]
+            exact hv2.symm
+    | false =>
+    have hst := stepTxn_stored_cell (ev := ev) hc hz
     cases hf : fire (fireTable sp ev) c with
     | some v =>
       rw [hf] at hst
@@ -524,6 +586,7 @@ theorem val_stepTxn_cell_aux {sp : Spec} {rank : Nat → Nat} (wf : WellFormed s
       | none =>
         simp only []
         cases hd : sp.getDef c with
+        | holdz s c2 => rw [hd] at hz; cases hz
         | mapc c2 k =>
           simp only []
           have h2 := mapc_fires hd (hres c hi)
